@@ -24,6 +24,7 @@ type lookupPeer struct {
 	state           int32
 	connectCallback func(*lookupPeer)
 	maxBodySize     int64
+	deadline        time.Time
 	Info            peerInfo
 }
 
@@ -64,15 +65,15 @@ func (lp *lookupPeer) String() string {
 	return lp.addr
 }
 
-// Read implements the io.Reader interface, adding deadlines
+// Read implements the io.Reader interface, adding the deadline of the current round trip
 func (lp *lookupPeer) Read(data []byte) (int, error) {
-	lp.conn.SetReadDeadline(time.Now().Add(time.Second))
+	lp.conn.SetReadDeadline(lp.deadline)
 	return lp.conn.Read(data)
 }
 
-// Write implements the io.Writer interface, adding deadlines
+// Write implements the io.Writer interface, adding the deadline of the current round trip
 func (lp *lookupPeer) Write(data []byte) (int, error) {
-	lp.conn.SetWriteDeadline(time.Now().Add(time.Second))
+	lp.conn.SetWriteDeadline(lp.deadline)
 	return lp.conn.Write(data)
 }
 
@@ -99,6 +100,7 @@ func (lp *lookupPeer) Command(cmd *nsq.Command) ([]byte, error) {
 			return nil, err
 		}
 		lp.state = stateConnected
+		lp.deadline = time.Now().Add(time.Second)
 		_, err = lp.Write(nsq.MagicV1)
 		if err != nil {
 			lp.Close()
@@ -114,6 +116,9 @@ func (lp *lookupPeer) Command(cmd *nsq.Command) ([]byte, error) {
 	if cmd == nil {
 		return nil, nil
 	}
+	// one deadline for the whole round trip, not one per Read: a peer that sends a byte
+	// now and then must not hold up lookupLoop (and with it every other nsqlookupd)
+	lp.deadline = time.Now().Add(time.Second)
 	_, err := cmd.WriteTo(lp)
 	if err != nil {
 		lp.Close()
